@@ -339,6 +339,23 @@ pub fn frames_for(cookies: &HashMap<crate::model::FlowKey, u32>, thorough: bool)
         v.push((format!("{}-arp", n), vec![], eth(&[0xff; 6], &smac, ET_ARP, &Arp::request(smac, [10, 0, 0, 9], [10, 0, 0, 1]).bytes())));
         v.push((format!("{}-ns", n), vec![], eth(&crate::driver::MAC_SRV, &smac, ET_IP6, &nd_ns(&cli6(), &srv6(), &srv6(), &slla(&smac), 0))));
     }
+    // printed forms of every length: IPv6 addresses that do not compress, 5-digit ports
+    {
+        let mut f = flow6(54321, 65432);
+        f.cip = Ip::parse("2001:db8:1234:5678:9abc:def0:1357:2468");
+        f.sip = Ip::parse("2001:db8:ffff:eeee:dddd:cccc:bbbb:aaaa");
+        v.push(("long-v6-syn".into(), vec![], f.tcp(4294967295, 4294967295, F_SYN, b"")));
+        v.push(("long-v6-data".into(), vec![], f.tcp(4294967295, 4294967295, F_PSH | F_ACK, b"GET / HTTP/1.1\r\n\r\n")));
+        v.push(("long-v6-finack".into(), vec![], f.tcp(4294967295, 4294967295, F_FIN | F_ACK, b"")));
+        v.push(("long-v6-stun".into(), vec![], f.udp(&stun_magic(&[], &ID12))));
+        v.push(("long-v6-udp-garbage".into(), vec![], f.udp(b"zzzz")));
+        v.push(("long-v6-echo".into(), vec![], f.icmp_echo(65535, 65535, b"x")));
+        let mut g = flow4(54321, 65432);
+        g.cip = Ip::V4([255, 255, 255, 254]);
+        g.sip = Ip::V4([192, 168, 100, 200]);
+        v.push(("long-v4-syn".into(), vec![], g.tcp(4294967295, 4294967295, F_SYN, b"")));
+        v.push(("long-v4-stun".into(), vec![], g.udp(&stun_magic(&[], &ID12))));
+    }
     // replies of every size class: echo requests whose reply reaches and exceeds a 1500-byte MTU
     for n in [1400usize, 1471, 1472, 1473, 1480, 1500, 2000, 4000, 9000] {
         for v6 in [false, true] {
